@@ -1,22 +1,35 @@
 #!/bin/sh
 # usage: tools/seedtest.sh <property> <dir-with-patch.diff-and-demo_test.go> [tier]
-# Applies a seeded change to /repo, confirms it (suite passes, demo fails), runs the
-# property's check, restores /repo, confirms the demo passes again. Prints a summary.
+# Confirms a seeded change in a scratch worktree of /repo (suite passes, demonstration
+# fails with it and passes without it) and runs the property's check against that
+# worktree (VERIF_REPO). /repo itself is not touched. Prints a RESULT line.
 . "$(dirname "$0")/../bin/env.sh"
 p="$1"; d="$2"; tier="${3:-quick}"
 [ -f "$d/patch.diff" ] || { echo "no patch in $d"; exit 2; }
-[ -z "$(git -C /repo status --porcelain)" ] || { echo "/repo not clean"; exit 2; }
-restore() { git -C /repo checkout -- . ; rm -rf /repo/zz_seed_demo; }
-trap restore EXIT INT TERM
+id="$(basename "$(dirname "$d")")-$(basename "$d")"
+wt="/tmp/seedwt-$id"
+git -C /repo worktree remove --force "$wt" >/dev/null 2>&1
+git -C /repo worktree add -q --detach "$wt" HEAD || exit 2
+cleanup() { git -C /repo worktree remove --force "$wt" >/dev/null 2>&1; rm -rf "$VERIF_DIR/.build/seed-$id"; }
+trap cleanup EXIT INT TERM
 race=""; [ "$p" = C17 ] && race="-race"
-rundemo() { mkdir -p /repo/zz_seed_demo && cp "$d"/demo_test.go /repo/zz_seed_demo/demo_test.go && (cd /repo/zz_seed_demo && timeout 300 go test $race -vet=off -count=1 . >/tmp/seed_demo.log 2>&1; echo $?) ; rm -rf /repo/zz_seed_demo; }
-git -C /repo apply "$d/patch.diff" || { echo "RESULT patch does not apply"; exit 2; }
-(cd /repo && go build ./... >/tmp/seed_build.log 2>&1) || { echo "RESULT does not compile"; exit 2; }
-suite=$(cd /repo && go test -vet=off -count=1 ./... 2>&1 | grep -c '^FAIL\|^---\ FAIL\|panic:')
-demo_with=$(rundemo)
-"$(dirname "$0")/../bin/check" $p $tier > /tmp/seed_check.log 2>&1; chk=$?
-viol=$(grep -c '^VIOLATION' /tmp/seed_check.log)
-restore
+pkg=$(grep -m1 '^package ' "$d/demo_test.go" | awk '{print $2}')
+tests=$(grep -o '^func Test[A-Za-z0-9_]*' "$d/demo_test.go" | sed 's/func //' | paste -sd'|')
+rundemo() {
+  if [ "$pkg" = concise_encoding ] || [ "$pkg" = concise_encoding_test ]; then
+    cp "$d/demo_test.go" "$wt/zz_seed_demo_test.go"
+    (cd "$wt" && timeout 600 go test $race -vet=off -count=1 -run "^($tests)\$" . >/tmp/seed_demo_$id.log 2>&1; echo $?); rm -f "$wt/zz_seed_demo_test.go"
+  else
+    mkdir -p "$wt/zz_seed_demo" && cp "$d/demo_test.go" "$wt/zz_seed_demo/demo_test.go"
+    (cd "$wt" && timeout 600 go test $race -vet=off -count=1 ./zz_seed_demo/ >/tmp/seed_demo_$id.log 2>&1; echo $?); rm -rf "$wt/zz_seed_demo"
+  fi
+}
 demo_without=$(rundemo)
-echo "RESULT suite_failures=$suite demo_with_patch_exit=$demo_with demo_without_patch_exit=$demo_without check_exit=$chk violations=$viol"
-grep -E '^violation:|^VIOLATION|^INFRA' /tmp/seed_check.log | cut -c1-260 | head -12
+git -C "$wt" apply "$d/patch.diff" || { echo "RESULT $id patch does not apply"; exit 2; }
+(cd "$wt" && go build ./... >/tmp/seed_build_$id.log 2>&1) || { echo "RESULT $id does not compile"; exit 2; }
+suite=$(cd "$wt" && go test -vet=off -count=1 ./... 2>&1 | grep -c '^FAIL\|^--- FAIL\|^panic:')
+demo_with=$(rundemo)
+VERIF_REPO="$wt" VERIF_BUILD_DIR="$VERIF_DIR/.build/seed-$id" VERIF_REPLAY_DIR="$VERIF_DIR/.build/seed-$id/replays" VERIF_EVIDENCE_DIR="$VERIF_DIR/.build/seed-$id/evidence" "$VERIF_DIR/bin/check" $p $tier > /tmp/seed_check_$id.log 2>&1; chk=$?
+viol=$(grep -c '^VIOLATION' /tmp/seed_check_$id.log)
+echo "RESULT $id prop=$p tier=$tier suite_failures=$suite demo_without=$demo_without demo_with=$demo_with check_exit=$chk violations=$viol"
+grep -E '^violation:|^INFRA' /tmp/seed_check_$id.log | cut -c1-230 | head -6
